@@ -34,6 +34,22 @@ CLAIMED = {
          "Machine-checked proof over a transcription of props/storage.c for all op scripts; correspondence on fields, allocation ordinals and alloc/free event sequence on every run.",
          "Trusted: Lean kernel; malloc returns fresh blocks and never fails; size_t wrap-around not modelled; ill-formed uses (init over an owning object, self-copy) skipped identically.",
          "DESIGN.md section 5, C13"),
+ "C14": ("lean-storage", "Lean 4 theorems: file_write's retry loop (termination by measure) writes exactly the buffer under every short-write oracle; raw device over an abstract file system: file of an acquisition = concatenation of its packets for every history, grouping and URI spelling; tie: differential correspondence of real raw.c + real linux/platform.c with pwrite/open/close interposed and scripted faults, file bytes compared",
+         "Machine-checked proof over a transcription of file_write and raw.c for all histories, packet groupings and short-write patterns; correspondence on status, state, syscall log and file hash on every run.",
+         "Trusted: Lean kernel; kernel model (open returns an unused descriptor or fails, pwrite writes a prefix or fails, close releases); offset overflow not modelled; set-while-running and calls after close are skipped as ill-formed.",
+         "DESIGN.md section 5, C14"),
+ "C15": ("lean-tiff", "Lean 4 theorems: an independent bounds-checked BigTIFF reader applied to the model writer's file returns exactly N pages with each frame's tags, pixels and JSON description (round trip), chain of N directories ending in a zero link, sections disjoint and inside the file, for both device kinds through the HAL; tag table and struct sizes regenerated from tiff.cpp on every run and tied by `decide`; tie: byte-for-byte comparison of real tiff.cpp/side-by-side-tiff.cpp output files with the model's file, and the Lean reader run on the real files",
+         "Machine-checked proof over a transcription of the writers for all shapes, sample types, N >= 1, packet groupings and metadata strings; byte-exact correspondence on every run.",
+         "Trusted: Lean kernel; writes succeed in full (failures are C16); printf decimal formatting = Nat.repr; pixel-scale float conversion by truncation; tiff-json uri without trailing slash.",
+         "DESIGN.md section 5, C15"),
+ "C16": ("lean-storage", "Lean 4 theorems: for every storage kind, life-cycle history, fault oracle and descriptor choice the syscall trace passes the ownership automaton (pwrite/flock/close only on descriptors the device opened and still owns, each closed exactly once), a never-started device issues no writes, a failed write inside append leaves the device not Running, all functions total with bounded syscall counts; tie: differential correspondence of the real writers + HAL + platform.c with syscalls interposed, every fault index of short histories x 4 kinds, each case in a forked child with small stack and watchdog",
+         "Machine-checked proof over I/O skeleton models of raw/tiff/tiff-json/trash wrapped by the HAL storage state machine, for all histories and fault oracles; correspondence on status, state and canonicalised syscall log.",
+         "Trusted: Lean kernel; kernel model as for C14; TIFF offsets/contents are C15's subject (masked here); set-while-running is outside the life cycles C16 names.",
+         "DESIGN.md section 5, C16"),
+ "C17": ("lean-simcam", "Lean 4 theorems: for every kind, binning, sample type, requested shape and set/start/get_frame/stop/set history the reported shape is the clamped request with matching strides, get returns what is in effect, buffers are re-sized on every set, and every renderer pass (im_fill_rand, im_fill_pattern, each bin2 pass, copy-out) stays inside its buffer; constants regenerated from simulated.camera.c; tie: differential correspondence of the real simulated.camera.c (AVX2 and plain builds, ASan+UBSan) incl. allocated sizes and canary-framed caller buffers, tight-extent runs of bin2/fill on exactly-sized heap blocks",
+         "Machine-checked proof over a transcription of simcam_set/get/get_frame and the byte extents of the renderers; correspondence and exact-extent validation on every run.",
+         "Trusted: Lean kernel; AVX2 lane semantics (only touched bytes modelled); the cascade's pass schedule tied indirectly through allocated sizes and ASan-clean runs; realloc failure not modelled; set while running (races the streamer) is outside the quantifier.",
+         "DESIGN.md section 5, C17"),
 }
 PLANNED = {}
 ALL = ["C%02d" % i for i in range(1, 19)]
@@ -73,6 +89,9 @@ def main():
             {"name": "detsched", "path": "harness/detsched", "serves_properties": ["C03", "C18"], "kind_free_text": "deterministic scheduler: alternative implementation of the repo's platform.h API (baton-passing pthreads, every synchronisation call a yield point)"},
             {"name": "lean-hal", "path": "lean/AcqVerif/Hal", "serves_properties": ["C11"], "kind_free_text": "HAL wrappers model + protocol automaton; harness harness/hal"},
             {"name": "lean-select", "path": "lean/AcqVerif/Select", "serves_properties": ["C12"], "kind_free_text": "device manager model + regex matcher; harness harness/select"},
+            {"name": "lean-storage", "path": "lean/AcqVerif/Storage", "serves_properties": ["C14", "C16"], "kind_free_text": "OS model, file_write, raw/tiff/tiff-json/trash I/O skeletons, HAL storage; harness harness/storage_io"},
+            {"name": "lean-tiff", "path": "lean/AcqVerif/Tiff", "serves_properties": ["C15"], "kind_free_text": "BigTIFF writer model, independent reader, JSON description scanner; harness harness/tiff"},
+            {"name": "lean-simcam", "path": "lean/AcqVerif/Simcam", "serves_properties": ["C17"], "kind_free_text": "simulated camera configuration/buffer-extent model; harness harness/simcam_shape"},
             {"name": "lean-sprops", "path": "lean/AcqVerif/SProps", "serves_properties": ["C13"], "kind_free_text": "StorageProperties heap model; harness harness/props"},
         ],
         "checks": checks,
